@@ -286,9 +286,9 @@ func (r *codecRunner) run(op Op) {
 		proj.Fill(proj.Impl(other), op.V, proj.WrapImpl)
 		proj.Fill(otherD.ProtoReflect(), op.V, proj.WrapNone)
 		note := func(f string, a ...any) { e.LibNote += fmt.Sprintf(f, a...) + "; " }
+		e.RefEqual = proto.Equal(r.d, otherD)
 		e.Panic = catch(func() {
 			e.Equal = proto.Equal(r.p, other)
-			e.RefEqual = proto.Equal(r.d, otherD)
 			cl := proto.Clone(r.p)
 			e.EqualSelf = proto.Equal(r.p, r.p) && proto.Equal(r.p, cl) && proto.Equal(cl, r.p) && proto.Equal(r.p, r.d) && proto.Equal(r.d, r.p)
 			// the clone is deep: overwriting everything it owns leaves the original unchanged
@@ -355,10 +355,12 @@ func (r *codecRunner) run(op Op) {
 					}
 				}
 			}
-			// Merge(current, other) on pulsar and on the twin
+			// Merge(current, other) on pulsar
 			proto.Merge(r.p, other)
-			proto.Merge(r.d, otherD)
 		})
+		// ... and on the twin (outside the recover scope of the pulsar calls, so that a pulsar
+		// panic cannot make the twin look wrong)
+		proto.Merge(r.d, otherD)
 		e.Ok, e.RefOk = e.Panic == "", true
 		r.project(e)
 	case "plantnil":
@@ -565,7 +567,9 @@ func randomCodecPlan(g *val.Gen, mt protoreflect.MessageType, mode string, emit 
 		return false
 	}
 	emit(Op{Op: "load", T: t, V: v})
-	if g.R.Intn(2) == 0 && (is("rt", "det", "size") || mode == "mem" || mode == "pure" || mode == "lib") {
+	// (not in lib mode: proto.Merge INTO a message holding nil map values / list elements panics
+	// "cannot merge into invalid message" in every implementation -- nil is read-only)
+	if g.R.Intn(2) == 0 && (is("rt", "det", "size") || mode == "mem" || mode == "pure") {
 		emit(Op{Op: "plantnil", Tag: "plantnil"})
 	}
 	b, err := proto.MarshalOptions{Deterministic: true}.Marshal(d)
